@@ -151,6 +151,19 @@ def isCont (b : UInt8) : Bool := decide (128 ≤ b.toNat) && decide (b.toNat < 1
 /-- U+FFFD in UTF-8 -/
 def replacement : Bytes := [0xEF, 0xBF, 0xBD]
 
+/-- the `(lead, second)` test of a three-byte sequence in `Utf8Chunks::next` -/
+def utf8Second3 (b c : UInt8) : Bool :=
+  (b.toNat == 0xE0 && decide (0xA0 ≤ c.toNat) && decide (c.toNat ≤ 0xBF)) ||
+  (decide (0xE1 ≤ b.toNat) && decide (b.toNat ≤ 0xEC) && decide (0x80 ≤ c.toNat) && decide (c.toNat ≤ 0xBF)) ||
+  (b.toNat == 0xED && decide (0x80 ≤ c.toNat) && decide (c.toNat ≤ 0x9F)) ||
+  (decide (0xEE ≤ b.toNat) && decide (b.toNat ≤ 0xEF) && decide (0x80 ≤ c.toNat) && decide (c.toNat ≤ 0xBF))
+
+/-- the `(lead, second)` test of a four-byte sequence -/
+def utf8Second4 (b c : UInt8) : Bool :=
+  (b.toNat == 0xF0 && decide (0x90 ≤ c.toNat) && decide (c.toNat ≤ 0xBF)) ||
+  (decide (0xF1 ≤ b.toNat) && decide (b.toNat ≤ 0xF3) && decide (0x80 ≤ c.toNat) && decide (c.toNat ≤ 0xBF)) ||
+  (b.toNat == 0xF4 && decide (0x80 ≤ c.toNat) && decide (c.toNat ≤ 0x8F))
+
 /-- `String::from_utf8_lossy` after std's `Utf8Chunks::next` (core/src/str/lossy.rs):
 a lead byte followed by the longest prefix of its continuation bytes that can still
 start a valid sequence is one maximal invalid part, replaced by one U+FFFD;
@@ -166,12 +179,7 @@ def lossy : Bytes → Bytes
     else if 0xE0 ≤ b.toNat ∧ b.toNat ≤ 0xEF then
       match rest with
       | c :: rest' =>
-        let ok2 : Bool :=
-          (b.toNat == 0xE0 && decide (0xA0 ≤ c.toNat) && decide (c.toNat ≤ 0xBF)) ||
-          (decide (0xE1 ≤ b.toNat) && decide (b.toNat ≤ 0xEC) && decide (0x80 ≤ c.toNat) && decide (c.toNat ≤ 0xBF)) ||
-          (b.toNat == 0xED && decide (0x80 ≤ c.toNat) && decide (c.toNat ≤ 0x9F)) ||
-          (decide (0xEE ≤ b.toNat) && decide (b.toNat ≤ 0xEF) && decide (0x80 ≤ c.toNat) && decide (c.toNat ≤ 0xBF))
-        if !ok2 then replacement ++ lossy (c :: rest')
+        if !utf8Second3 b c then replacement ++ lossy (c :: rest')
         else
           match rest' with
           | d :: rest'' => if isCont d then b :: c :: d :: lossy rest'' else replacement ++ lossy (d :: rest'')
@@ -180,11 +188,7 @@ def lossy : Bytes → Bytes
     else if 0xF0 ≤ b.toNat ∧ b.toNat ≤ 0xF4 then
       match rest with
       | c :: rest' =>
-        let ok2 : Bool :=
-          (b.toNat == 0xF0 && decide (0x90 ≤ c.toNat) && decide (c.toNat ≤ 0xBF)) ||
-          (decide (0xF1 ≤ b.toNat) && decide (b.toNat ≤ 0xF3) && decide (0x80 ≤ c.toNat) && decide (c.toNat ≤ 0xBF)) ||
-          (b.toNat == 0xF4 && decide (0x80 ≤ c.toNat) && decide (c.toNat ≤ 0x8F))
-        if !ok2 then replacement ++ lossy (c :: rest')
+        if !utf8Second4 b c then replacement ++ lossy (c :: rest')
         else
           match rest' with
           | d :: rest'' =>
